@@ -76,7 +76,8 @@ def _power_helper(v, expo):
 def _clip_helper(v, a_min, a_max):
     if np.issubdtype(v.dtype, np.complexfloating):
         raise TypeError("Argument must not be complex")
-    if not isinstance(a_min, (float, int) + ALLOWED_WRAPPEES):
+    if not all(b is None or isinstance(b, (float, int) + ALLOWED_WRAPPEES)
+               for b in (a_min, a_max)):
         raise TypeError("a_min, a_max need to be float or int or ndarray, "
                         f"got: {type(a_min)}, {type(a_max)}")
     tmp = np.clip(v, a_min, a_max)
